@@ -17,6 +17,12 @@ add("C01", "exploration",
     "Trusts: the harness' own reference reader (self-tested on fixtures at start-up), Rust's str::parse::<f64> as correctly rounded, the float acceptance rule of DESIGN.md A.4. Does not prove absence.",
     "DESIGN.md section 4/C01")
 
+add("C02", "exploration",
+    "property-based round-trip over the enumerated printer x parser option product, against a parser-independent folding model and an independent per-dialect reader",
+    "Exploration over configurations and inputs: all 576 printer option sets are enumerated in both tiers; the compatible parser option sets are sampled (quick) or enumerated (thorough, 82944 pairs); values are generated per pair so that names are plain in that dialect. The expected result is computed by M_fold (table in DESIGN.md A.1) without calling the parser, and the printed text is additionally read by an independent reader for the dialect the printer options select (R7RS or the documented Emacs Lisp subset). Failures are minimised over options and value to a stable signature.",
+    "Trusts compat(P)/M_fold/plain-name tables of DESIGN.md A.1 (written from the option documentation and the property statement), the reference reader, and the float rule of C01.",
+    "DESIGN.md section 4/C02")
+
 NOT_YET = {}
 
 def main():
